@@ -20,6 +20,8 @@ type Loop struct {
 	// recorded at the header for the back-edge checks
 	decrAtHead []Val
 	headHeap   *HeapState
+	// the values the header phis have when the loop is entered (for `atentry(x)` in invariants)
+	entryVals map[ssa.Value]Val
 }
 
 type nameDef struct {
@@ -731,6 +733,7 @@ func (f *Frame) enterLoop(lp *Loop) {
 			over[phi] = Val{S: n, Sort: g.sortOf(phi.Type()), GT: phi.Type()}
 		}
 	}
+	lp.entryVals = over
 	// invariant holds on entry
 	if f.top {
 		for i, c := range f.loopClauses(lp, "invariant") {
